@@ -403,6 +403,18 @@ func (c *ctl) rawSend(i, v int) {
 	c.sendCh(i) <- v
 }
 
+func (c *ctl) rawTrySend(i, v int) bool {
+	if x := c.xins[i]; x != nil {
+		return x.trySend(v)
+	}
+	select {
+	case c.sendCh(i) <- v:
+		return true
+	default:
+		return false
+	}
+}
+
 func (c *ctl) rawClose(i int) {
 	if x := c.xins[i]; x != nil {
 		x.close()
